@@ -125,3 +125,55 @@ UNITS = [
        ensures=["value_of(result) == want"],
        raises={'ParsingException': "want is None or want == 'circular'"}, native=gen_import),
 ]
+
+
+# ---------------------------------------------------------------------------------------------------------------
+# Assembly of the main file (slice of ParseFile: from `defined_predicates = DefinedPredicates(rules)` to the end of the
+# loop over the parsed imports): a normal exit means that no predicate (other than an @-annotation) is defined by two
+# of the files -- neither by the main file and an import, nor by two imports: same-named predicates of different
+# files never collide silently; the only other way out is the "overridden" ParsingException.
+ASM_INV = [
+    "all(all(p in defined_predicates for p in defs_of(x)) for x in _visited0)",
+    "all(p in defined_predicates for p in defs_main())",
+    "all(p in defs_main() or any(p in defs_of(x) for x in _visited0) for p in defined_predicates)",
+    "all(all(implies(x != y, all(implies(p in defs_of(y), p[0] == '@') for p in defs_of(x))) for y in _visited0) "
+    "for x in _visited0)",
+    "all(all(implies(p in defs_main(), p[0] == '@') for p in defs_of(x)) for x in _visited0)",
+]
+
+def gen_assembly(tier, mod):
+  """Main file and up to three imported files, each defining any subset of {P, Q, @Ground} (quick: two files)."""
+  import itertools
+  names = ['P', 'Q', '@Ground']
+  subsets = [[n for k, n in enumerate(names) if m >> k & 1] for m in range(8)]
+  mk_rules = lambda ns: [{'head': {'predicate_name': n}, 'full_text': n} for n in ns]
+  for nfiles in range(0, 3 if tier == 'quick' else 4):
+    for main in subsets:
+      for combo in itertools.product(subsets, repeat=nfiles):
+        imports = {'f%d' % k: {'rule': mk_rules(c), 'file_name': 'f%d' % k} for k, c in enumerate(combo)}
+        yield {'args': [mk_rules(main), imports], 'self': None,
+               'env': {'defs_main': (lambda main=main: set(main)),
+                       'defs_of': (lambda i: {r['head']['predicate_name'] for r in i['rule']})},
+               'show': {'main': main, 'imports': [list(c) for c in combo]}}
+
+
+UNITS += [
+  unit(F, 'ParseFile', name='ParseFile[assembly]', props=['C12'],
+       slice=('defined_predicates = DefinedPredicates(rules)', 'for i in parsed_imports.values()'),
+       params=['rules', 'parsed_imports'], types={'rules': 'list[RuleT]', 'parsed_imports': 'dict[str,Imp]'},
+       locals={'defined_predicates': 'set[str]', 'main_defined_predicates': 'set[str]', 'new_predicates': 'set[str]'},
+       fields={}, modifies=[], modifies_args=['rules'], set_axioms=True,
+       exceptions=['ParsingException'], may_raise={'ParsingException': 'True'},
+       abstract_exprs={"DefinedPredicates(rules)": ('defs_main', [], 'set[str]'),
+                       "DefinedPredicates(i['rule'])": ('defs_of', ['i'], 'set[str]'),
+                       "i['rule']": ('rules_of', ['i'], 'list[RuleT]')},
+       ufs={'defs_main': ([], 'set[str]'), 'defs_of': (['Imp'], 'set[str]'), 'rules_of': (['Imp'], 'list[RuleT]')},
+       requires=["all(len(p) > 0 for p in defs_main())",
+                 "all(all(len(p) > 0 for p in defs_of(x)) for x in parsed_imports.values())"],
+       native=lambda tier, mod: gen_assembly(tier, mod),
+       ensures=[
+           "all(all(implies(x != y, all(implies(p in defs_of(y), p[0] == '@') for p in defs_of(x))) "
+           "for y in parsed_imports.values()) for x in parsed_imports.values())",
+           "all(all(implies(p in defs_main(), p[0] == '@') for p in defs_of(x)) for x in parsed_imports.values())"],
+       loops={0: {'inv': ASM_INV}}),
+]
